@@ -5,7 +5,7 @@ import gen_m2
 import sx
 
 PID = "C12"
-KERNELS = ['K_concat_tempo']   # translated from /repo on every run, tied to the model by coq/Gen/<name>_eq.v
+KERNELS = ['K_concat_tempo', 'K_concat']   # translated from /repo on every run, tied to the model by coq/Gen/<name>_eq.v
 RUNNER = "impl_m1.py"
 VM_CROSSCHECK = True
 N = {"quick": 1800, "thorough": 60000}
